@@ -27,7 +27,7 @@ PROPS = ["C20"]
 PREDS = {"Law_RequestFromShares", "Law_RoundTrip", "Law_LimitFromQuota", "Law_Monotone", "Law_MemTableBuilds",
          "Law_MemMapsBack", "Law_Estimate"}
 
-WEIGHT = {"s2m": 1, "rt": 1, "m2s": 1, "m2q": 1, "q2m": 1, "memd": 5, "memp": 3, "memr": 7, "est": 2}
+WEIGHT = {"s2m": 1, "rt": 1, "m2s": 1, "m2q": 1, "q2m": 1, "memd": 5, "memp": 3, "memr": 7, "memw": 16, "est": 2}
 JVM_OPTS = {"JAVA_TOOL_OPTIONS": "-XX:ParallelGCThreads=2 -XX:CICompilerCount=2"}
 
 
@@ -220,11 +220,12 @@ def run(ctx):
     evaluations = sum(inputs.values())
     if not only:
         need = {"s2m": 262143, "rt": 256001, "m2s": 256001, "m2q": 256001, "est": 1}
-        short = [k for k, n in need.items() if inputs.get(k, 0) < n] + [k for k in ("q2m", "memd", "memp", "memr") if inputs.get(k, 0) == 0]
+        short = [k for k, n in need.items() if inputs.get(k, 0) < n] + \
+            [k for k in ("q2m", "memd", "memp", "memr") + (() if q else ("memw",)) if inputs.get(k, 0) == 0]
         if short:
             raise vlib.Inconclusive("drivers never exercised: %s (%s)" % (short, inputs))
 
-    ncap = inputs.get("memd", 0) + inputs.get("memp", 0) + inputs.get("memr", 0)
+    ncap = sum(inputs.get(k, 0) for k in ("memd", "memp", "memr", "memw"))
     cov = {"states": mc["distinct"], "transitions": mc["generated"], "design_depth": mc["depth"],
            "design_config": "MC_Kube: every request/limit 0..256000 mCPU x %d periods through kubelet encoding and reference decoders; "
                             "5 invariants + limb-arithmetic assumptions" % len({s["p"] for s in segs if s["ev"] == "q2m" and s["st"] != 1}),
